@@ -472,7 +472,7 @@ func (c *ctx) caseLexer(q string, tag string) {
 
 func (c *ctx) runLexer(r *vh.RNG) {
 	// exhaustive: every string over a small hostile alphabet up to a length bound
-	alpha := []string{"a", " ", "'", "\"", "`", "\\", "*", "#", "\n", ":", "x", "\xff", "é", "n", "u", "0", "-", "("}
+	alpha := []string{"a", " ", "'", "\"", "`", "\\", "*", "#", "\n", ":", "x", "\xff", "é", "n", "u", "0", "-", "(", "\r"}
 	var rec func(prefix string, n int)
 	rec = func(prefix string, n int) {
 		c.caseLexer(prefix, "exhaustive")
@@ -488,7 +488,7 @@ func (c *ctx) runLexer(r *vh.RNG) {
 		c.caseLexer(v, "values")
 		c.caseLexer("fk:"+v+" and "+v, "values")
 	}
-	esc := []string{`\n`, `\t`, `\\`, `\"`, `\'`, `\x41`, `\x4`, `\u00e9`, `\u00e`, `\U0001F600`, `\101`, `\8`, `\q`, `\*`, `*`, `\`, "é", "\xff", "\xc3", "a", " ", "`", "'", `"`, "#", "\n"}
+	esc := []string{`\n`, `\t`, `\\`, `\"`, `\'`, `\x41`, `\x4`, `\u00e9`, `\u00e`, `\U0001F600`, `\101`, `\8`, `\q`, `\*`, `*`, `\`, "é", "\xff", "\xc3", "a", " ", "`", "'", `"`, "#", "\n", "\r", "\r\n"}
 	for i := 0; i < c.o.Pick(20000, 300000); i++ {
 		var sb strings.Builder
 		for k := r.Intn(4); k >= 0; k-- {
